@@ -480,7 +480,7 @@ class Spec:
             t = ln.split()
             tag = t[0]
             if t[-1].startswith('!'):
-                clause = {'get': 'get', 'row': 'get_components', 'exists': 'entity_exists', 'has': 'has_component',
+                clause = {'get': 'get', 'getall': 'get', 'row': 'get_components', 'exists': 'entity_exists', 'has': 'has_component',
                           'entities': 'entities', 'procs': 'processors-order', 'gp': 'get_processor',
                           'ish': 'registered-iff-attached'}.get(tag, tag)
                 raise Mismatch(clause, f'query `{" ".join(t[:-1])}` raised {t[-1][1:]}')
@@ -492,6 +492,11 @@ class Spec:
                 if t[2] != w:
                     dup = len(set(split_list(t[2]))) != len(split_list(t[2]))
                     raise Mismatch('get-lists-pair-twice' if dup else 'get', f'get({T}) = {t[2]}, required {w}')
+            elif tag == 'getall':
+                want = sorted(e * 100000 + c for e, row in self.attached.items() for c in row.values())
+                w = ','.join(f'{p // 100000}:{p % 100000}' for p in want) or '-'
+                if t[1] != w:
+                    raise Mismatch('get', f'get(object) = {t[1]}, required every attached component: {w}')
             elif tag == 'row':
                 e = int(t[1])
                 w = ','.join(map(str, sorted(self.attached.get(e, {}).values()))) or '-'
@@ -515,6 +520,9 @@ class Spec:
                 if not ok:
                     raise Mismatch('get_component', f'get_component({e}, {T}) = {t[4]}, matching: {cands}, '
                                    f'exact: {ex}')
+                if len(t) > 5 and t[5] != ('D' if t[4] == 'None' else t[4]):
+                    raise Mismatch('get_component', f'get_component({e}, {T}, default) = {t[5]} but without a '
+                                   f'default it returns {t[4]} (D: the default itself)')
             elif tag == 'entities':
                 w = ','.join(map(str, sorted(e for e in self.attached if e not in self.dead))) or '-'
                 if t[1] != w:
